@@ -322,6 +322,8 @@ class Parser:
         )
         if condition:
             self.__curcommand.reassign_arguments()
+            if not self.__curcommand.iscomplete():
+                return False
             # rewind lexer
             self.lexer.pos -= 1
             return True
